@@ -109,3 +109,117 @@ func HarnessC08Cache() {
 		verif.Reach("cache-present")
 	}
 }
+
+// HarnessC08Recovery: a recovery skeleton -- a valid first push, three more
+// pushes by symbolic signers (the last one restoring any earlier tree), and
+// one annotation revoking a symbolic subset of them placed after any push --
+// verified repeatedly with a persistent cache that was populated at a symbolic
+// point of the log's growth, and then without any cache.  All verdicts must
+// be equal: an unsuccessful run must not leave a checkpoint behind that makes
+// the next run succeed.
+func HarnessC08Recovery() {
+	w := zzNewWorld()
+	spec := zzBasePolicy([]int{0, 1}, nil)
+	zzMust(w.zzStageAndApply(spec, w.zzBuildState(spec, []int{0}, []int{0}), 0))
+	w.zzPush(zzMain, 0, 1, false)
+
+	populateAt := verif.Concrete(verif.Choice("populate.at", 4))  // before push 1, 2, 3, or after push 3
+	annotateAt := verif.Concrete(verif.Choice("annotate.after", 3)) // after push 1, 2 or 3
+	midVerify := verif.ConcreteBool(verif.Bool("verify.midway"))   // a verification run while the log is still growing
+	var idx []int
+	for i := 0; i < 3; i++ {
+		if populateAt == i {
+			zzMust(cache.PopulatePersistentCache(w.S))
+		}
+		p := "p" + strconv.Itoa(i+1)
+		tree := i + 2
+		if i == 2 {
+			tree = 1 + verif.Concrete(verif.Choice("p3.tree", 3))
+		}
+		w.zzPush(zzMain, verif.Choice(p+".signer", 3), tree, false)
+		idx = append(idx, len(w.hist)-1)
+		if annotateAt == i {
+			var targets []int
+			for k, h := range idx {
+				if verif.ConcreteBool(verif.Bool("skip.p" + strconv.Itoa(k+1))) {
+					targets = append(targets, h)
+				}
+			}
+			if len(targets) > 0 {
+				w.zzSkip(0, targets...)
+			}
+		}
+		if midVerify && i == 1 {
+			zz8Verify(w, zzMain, false) //nolint:errcheck
+		}
+	}
+	if populateAt == 3 {
+		zzMust(cache.PopulatePersistentCache(w.S))
+	}
+
+	_, err1 := zz8Verify(w, zzMain, false)
+	_, err2 := zz8Verify(w, zzMain, false)
+	_, err3 := zz8Verify(w, zzMain, false)
+	verif.Assert((err1 == nil) == (err2 == nil) && (err2 == nil) == (err3 == nil), "repeated-verification-same-verdict")
+	w.S.DropRef(cache.Ref)
+	_, errN := zz8Verify(w, zzMain, false)
+	verif.Assert((err1 == nil) == (errN == nil), "verdict-independent-of-cache")
+	if errN == nil {
+		verif.Reach("both-accept")
+	} else {
+		verif.Reach("both-reject")
+	}
+	for _, h := range idx {
+		if w.hist[h].skipped && errN == nil {
+			verif.Reach("accepted-with-revocation")
+		}
+	}
+}
+
+// HarnessC08ForgedPolicy: a successor policy written to the policy reference
+// behind Apply's back (root keys and signers are symbolic subsets, so the
+// successor may or may not be a valid one) followed by a push that only the
+// successor authorises; the verdicts with no cache and with a cache populated
+// at any point must agree.
+func HarnessC08ForgedPolicy() {
+	w := zzNewWorld()
+	p0 := zzBasePolicy([]int{0, 1}, nil)
+	zzMust(w.zzStageAndApply(p0, w.zzBuildState(p0, []int{0}, []int{0}), 0))
+	w.zzPush(zzMain, 0, 1, false)
+	populateAt := verif.Concrete(verif.Choice("populate.at", 3)) // before the successor, after it, after the last push
+	if populateAt == 0 {
+		zzMust(cache.PopulatePersistentCache(w.S))
+	}
+	p1 := zzBasePolicy([]int{2}, nil) // main is now trusted to key2 only
+	p1.rootKeys = zz2Subset("p1.rootkeys", []int{0, 2})
+	if len(p1.rootKeys) == 0 {
+		return
+	}
+	p1.rootThreshold = 1
+	p1.rootVersion, p1.targetsVer = 2, 2
+	p1.targetsKeys = []int{p1.rootKeys[0]}
+	state := w.zzBuildState(p1, zz2Subset("p1.rootsigners", []int{0, 2}), []int{p1.rootKeys[0]})
+	w.zz2Tamper(p1, state, 0)
+	if populateAt == 1 {
+		zzMust(cache.PopulatePersistentCache(w.S))
+	}
+	w.zzPush(zzMain, verif.Choice("push.signer", 3), 2, false)
+	if populateAt == 2 {
+		zzMust(cache.PopulatePersistentCache(w.S))
+	}
+	latestOnly := verif.ConcreteBool(verif.Bool("latestonly"))
+	_, errC := zz8Verify(w, zzMain, latestOnly)
+	_, errC2 := zz8Verify(w, zzMain, latestOnly)
+	verif.Assert((errC == nil) == (errC2 == nil), "repeated-verification-same-verdict")
+	w.S.DropRef(cache.Ref)
+	_, errN := zz8Verify(w, zzMain, latestOnly)
+	// Known finding C08-K1 (stale index): the cache was populated before the policy changed
+	k1 := populateAt == 0 && (errC == nil) != (errN == nil)
+	verif.Witness("C08-K1", k1)
+	verif.Assert(((errC == nil) == (errN == nil)) || k1, "verdict-independent-of-cache")
+	if errN == nil {
+		verif.Reach("both-accept")
+	} else {
+		verif.Reach("both-reject")
+	}
+}
